@@ -110,5 +110,18 @@ Vals9 == {ObjV("Deep9", <<Leaf("5"), Leaf("7")>>), ObjV("Mark9", <<Leaf("5")>>),
 P9 == {PCase("P9", <<F("o", d, 0, 1)>>, <<Send(d, v, poly)>>, <<d>>, <<v>>, poly) : d \in {DeclBase9, DeclMark9}, v \in Vals9, poly \in BOOLEAN}
       \cup {PCase("P9", <<F("a", Arr(DeclMark9), 0, 1)>>, <<SeqV(<<ObjV("Mark9", <<Leaf("5")>>), ObjV("Deep9", <<Leaf("5"), Leaf("7")>>)>>)>>, <<Arr(DeclMark9)>>,
                    <<SeqV(<<ObjV("Deep9", <<Nil, Leaf("7")>>)>>)>>, TRUE)}
-PolyCases == P1 \cup P2 \cup P3 \cup P4 \cup P5 \cup P6 \cup P7 \cup P8 \cup P9
+\* P10: members published under another name (sub_name) declared by the ANCESTORS of the runtime class: Base10{b1, label as "Label"}
+\* <- Mid10{m} <- Leaf10{l as "L"}: a Leaf10 carries "Label" like a Base10 does
+FsP(n, sub, t) == [n |-> n, t |-> t, min |-> 0, max |-> 1, sub |-> sub]
+PB10 == Obj("Base10", "tns", <<F("b1", Prim("Integer"), 0, 1), FsP("label", "Label", Prim("Unicode"))>>)
+PM10 == Sub("Mid10", "tns", <<F("m", Prim("Integer"), 0, 1)>>, PB10)
+PL10 == Sub("Leaf10", "tns", <<FsP("l", "L", Prim("Unicode"))>>, PM10)
+Decl10 == [PB10 EXCEPT !.subs = <<PM10, PL10>>]
+Vals10 == {ObjV("Leaf10", <<Leaf("3"), Leaf("three"), Leaf("30"), Leaf("t3")>>), ObjV("Mid10", <<Leaf("2"), Leaf("two"), Leaf("20")>>),
+           ObjV("Base10", <<Leaf("1"), Leaf("one")>>)}
+P10 == {PCase("P10", <<F("o", d, 0, 1)>>, <<Send(d, v, poly)>>, <<d>>, <<v>>, poly) : d \in {Decl10}, v \in Vals10, poly \in BOOLEAN}
+       \cup {PCase("P10", <<F("o", PL10, 0, 1)>>, <<v>>, <<PL10>>, <<v>>, FALSE) : v \in {ObjV("Leaf10", <<Leaf("3"), Leaf("three"), Leaf("30"), Leaf("t3")>>)}}
+       \cup {PCase("P10", <<F("a", Arr(Decl10), 0, 1)>>, <<SeqV(<<ObjV("Base10", <<Leaf("1"), Leaf("one")>>), ObjV("Leaf10", <<Leaf("3"), Leaf("three"), Leaf("30"), Leaf("t3")>>)>>)>>,
+                    <<Arr(Decl10)>>, <<SeqV(<<ObjV("Mid10", <<Leaf("2"), Leaf("two"), Leaf("20")>>)>>)>>, TRUE)}
+PolyCases == P10 \cup P1 \cup P2 \cup P3 \cup P4 \cup P5 \cup P6 \cup P7 \cup P8 \cup P9
 =============================================================================
